@@ -223,6 +223,10 @@ def gen_config(seed, tier='quick', family=None, index=None):
     cfg['no_default_measurements'] = bool(cfg['extra_measurements'] and cfg.get('wrapped_measurement')
                                           and nl.random() < 0.35)
     cfg['late_onset'] = nl.choice([1, 1, 2, 3])
+    if fam.startswith('dmrg') or fam in ('idmrg', 'vumps', 'exc'):
+        # ground-state searches may legitimately take a different number of sweeps (and of measurements at
+        # checkpoints) after a resume: whether a key with a later onset appears at all would depend on that
+        cfg['late_onset'] = 1
     return cfg
 
 
@@ -373,8 +377,8 @@ def build_params(cfg, out_name=None):
                 ['checks.c18_models', 'wrap constant_measurement', {'results_key': 'my_const', 'value': 7.0}],
                 ['psi_method', 'wrap entanglement_entropy', {'results_key': 'S_wrapped'}],
                 # a key that first appears at the second (or a later) measurement
-                ['checks.c18_models', 'm_late'] + ([{'onset': cfg['late_onset']}] if cfg.get('late_onset', 1) > 1
-                                                   else [])]
+                ['checks.c18_models', 'm_late'] + ([{'onset': cfg['late_onset']}]
+                                                   if cfg.get('late_onset', 1) > 1 and not is_gs else [])]
             if not is_gs and cfg.get('truncerr_measurement'):
                 # TruncationError objects as measurement values (tenpy stores them as <key>_eps / <key>_ov arrays)
                 params['connect_measurements'].append(['checks.c18_models', 'm_trunc_err'])
